@@ -78,6 +78,10 @@ def do_step(am, s, st, k, orig_n):
             if scale:
                 p = s.box.position_cartesian_to_relative(p)
             kw['pos'] = p.tolist() if _bits(st, k) & 1 else p
+            if sel.get('atol', 'default') != 'default':
+                kw['atol'] = {'zero': 0.0 if _bits(st, k) & 4 else 0, 'wide': 0.1}[sel['atol']]
+                if scale and sel['atol'] == 'zero' and off == 'exact':
+                    kw['atol'] = 1e-12          # through the relative -> Cartesian conversion "exact" means exact to rounding
     if act == 'interstitial':
         kw['pos'] = (np.array(a['s'], dtype=float) / 8) if scale else (np.array(a['p'], dtype=float) / Q)
         kw['scale'] = scale
